@@ -67,7 +67,7 @@ fn main() {
     let bundled = Converter::bundled();
     let empty = Converter::empty();
     let light = std::env::var("PMON_LIGHT").is_ok();
-    drive(|f| {
+    let run = |f: &[&str]| -> String {
         let input = unhex(f[0]);
         let bits = f[1].parse::<u32>().unwrap();
         let ext = Extensions::from_bits_truncate(bits);
@@ -165,7 +165,7 @@ fn main() {
                         Some(Event::YAMLFrontMatter(t)) => {
                             // the cooklang part starts after the closing fence line
                             let ye = t.span().end();
-                            match input[ye..].find('\n') {
+                            match input.get(ye..).and_then(|r| r.find('\n')) {
                                 Some(p) => ye + p + 1,
                                 None => input.len(),
                             }
@@ -291,5 +291,7 @@ fn main() {
         v.sort();
         v.dedup();
         format!("V {}", if v.is_empty() { "-".to_string() } else { v.join(",") })
-    });
+    };
+    // spans so wrong that the monitor's own bookkeeping fails must not kill the run: they are reported
+    drive(|f| guarded(|| run(f)).unwrap_or_else(|_| "V mon:panic".to_string()));
 }
